@@ -79,7 +79,8 @@ CLAIMS.update({
             "provenance, PAR on the parallel callables and the pool, structure of the mesh filter (both per-cell loops cover all vertices), "
             "base64 length of appended blocks = 4*ceil(n/3) (proof over residues), Cartesian grid: node positions and VTK cell "
             "connectivity as closed forms of the loop indices; sphere grid: bilinear block patch (partition of unity, corners, edges) and "
-            "projection R*p/|p|. The chunk and annulus generators and the merging of sphere blocks are decided only for their depth field",
+            "projection R*p/|p|; chunk grid: (lon, lat, r) lattice, conversion to Cartesian coordinates and connectivity. The annulus generator, the "
+            "uncompressed numbering and the merging of sphere blocks are decided only for their depth field",
             "§3.2, §3.11, §4 C18"),
 })
 
@@ -107,7 +108,8 @@ CLAIMS.update({
             "guard), N1 (sentinel overrides: tested variable = replaced variable, world's constant / adiabat, no dead override), closed "
             "forms of uniform/adiabatic/linear, cooling models, Gaussian plume, smooth composition blend; local depth bounds used once "
             "defined (DEP.surfaces.local); distance and velocity of the cooling age from one ridge candidate; one source per physical parameter "
-            "inside a model (PARAM.source). Chapman, mass-conserving, tian2019 recipes are not decided",
+            "inside a model (PARAM.source); Chapman geotherm T_top + (q/k) dz - (A/2k) dz^2 from the clipped top. Mass-conserving and tian2019 "
+            "recipes are not decided",
             "§3.5, §3.6, §4 C05"),
     "C06": ("normalised membership relations + call-site agreement + sibling cross-check + symbolic evaluation of the segment step",
             "slab/fault membership predicates over (distance from plane, distance along plane), inclusive depth gate, agreement of the "
@@ -143,7 +145,7 @@ CLAIMS.update({
     "C19": ("computer-algebra identity + interval check + structural rule",
             "Structural/algebraic clauses only: the closest-point search's cubic coefficients (vector and scalar form) expand to the Bernstein form of "
             "BezierCurve::operator() and the reported point is that cubic at the reported parameter; the acos clamp of the great-circle "
-            "distance is the identity on [-1,1]; kd-tree search structure (near child unconditional, far child pruned on the split-axis "
+            "distance is the identity on [-1,1] and the value under it is the cosine of the central angle (callee evaluated with its arguments); kd-tree search structure (near child unconditional, far child pruned on the split-axis "
             "difference, same mid in build and search, both search functions, Euclidean distance of both coordinates); every section of the trench "
             "curve is examined by the closest-point search; Cartesian<->spherical round trip as an identity; closed forms "
             "of the Point distance kernels; closed, twin-symmetric on-segment test of the polygon routine; the Bezier result record is "
